@@ -140,6 +140,15 @@ class Module:
                 self.renamed.extend(got)
                 self.functions, self.classes = {}, {}
                 self._index(self.tree.body, '', None, None)
+        # calls of helpers that did not exist in the confirmed tree are read in place (extract-method tolerance)
+        self.inlined: list = []
+        if not os.environ.get('MPSA_NO_RENAME_TOLERANCE'):
+            from .anchors import load_anchors
+            from .normalize import inline_new_helpers
+
+            ref_all = (load_anchors().get('__all__') or {}).get(self.rel)
+            if ref_all is not None:
+                self.inlined = inline_new_helpers(self, set(ref_all))
         for node in ast.walk(self.tree):
             if isinstance(node, ast.Import):
                 for a in node.names:
